@@ -39,6 +39,10 @@ impl ChanceRecurse for FullChance<'_> {
 
 impl ChanceRecurse for RefCell<SampledChance> {
     fn next_nodes<'b>(&self, chance: &'b Chance) -> ChanceIter<'_, 'b> {
+        #[cfg(feature = "verif")]
+        {
+            self.borrow_mut().verif_id = chance.infoset;
+        }
         let ind = self.borrow_mut().sample();
         [1.0].iter().zip(chance.outcomes[ind..=ind].iter())
     }
@@ -50,6 +54,10 @@ impl ChanceRecurse for RefCell<SampledChance> {
 
 impl ChanceRecurse for Mutex<SampledChance> {
     fn next_nodes<'b>(&self, chance: &'b Chance) -> ChanceIter<'_, 'b> {
+        #[cfg(feature = "verif")]
+        {
+            self.lock().unwrap().verif_id = chance.infoset;
+        }
         let ind = self.lock().unwrap().sample();
         [1.0].iter().zip(chance.outcomes[ind..=ind].iter())
     }
